@@ -204,7 +204,7 @@ theorem eraseDescend_ok (p : Params K) (pv : p.Valid) (tg : Target K) :
       simp only [Shape] at hs
       obtain ⟨hl, hk, hmin, hmax, hkids⟩ := hs
       have hi4 := pv.inner4
-      have hkeys : 1 ≤ keys.length := by simp [Params.innerMin] at hmin; omega
+      have hkeys : 1 ≤ keys.length := by simp [Params.innerMin, Gen.innerSlotmin] at hmin; omega
       unfold eraseDescend
       simp only
       have hs0le := findLower_le p keys tg.tkey
@@ -264,8 +264,8 @@ theorem eraseTop_ok (p : Params K) (pv : p.Valid) (tg : Target K) (t : Tree K V)
       (res.erased = true → EraseTopOK p tg t res) := by
   have hl4 := pv.leaf4
   have hi4 := pv.inner4
-  have hlmin : 2 ≤ p.leafMin := by simp [Params.leafMin]; omega
-  have himin : 2 ≤ p.innerMin := by simp [Params.innerMin]; omega
+  have hlmin : 2 ≤ p.leafMin := by simp [Params.leafMin, Gen.leafSlotmin]; omega
+  have himin : 2 ≤ p.innerMin := by simp [Params.innerMin, Gen.innerSlotmin]; omega
   unfold eraseTop
   cases hroot : t.root with
   | none => exact ⟨_, rfl, fun _ => ⟨rfl, rfl⟩, fun h => by cases h⟩
